@@ -644,6 +644,12 @@ func c16Run(c *h.Ctx) {
 			c16FaceAdds(c, id, c.Rng(id))
 		}
 	}
+	for k := 0; k < c.Pick(60, 600); k++ {
+		id := fmt.Sprintf("quiescent%d", k)
+		if c.Case(id) {
+			c16Quiescent(c, id, c.Rng(id))
+		}
+	}
 	n := c.Pick(6, 120)
 	for k := 0; k < n; k++ {
 		id := fmt.Sprintf("clients%d", k)
@@ -807,7 +813,7 @@ func init() {
 		ID: "C16", Level: "exploration", Race: true,
 		Rule: "race-detector build; (1) 2..16 goroutines (GOMAXPROCS 2/4/16) issue RIB register/unregister, face teardown (FaceTable.Remove -> RIB clean-up), FIB insert/remove, strategy set/unset, listings and forwarder-style lookups (copy, sort by cost, read fields) on 4 nested prefixes x 3 faces, both FIBs; " +
 			"(2) 4 real forwarding threads run and are fed Interests while a management-like goroutine mutates RIB/FIB and tears faces down; (3) 2-4 clients record call/return-stamped histories of register/unregister/lookup which porcupine checks against a sequential route-flattening + LPM model (final lookups included); " +
-			"oracles: deduplicated race reports whose innermost repository frame lies in the shared-table code, process survival, no deadlock (60 s watchdog), linearizability; distinct = race pairs, (workload, FIB, goroutines, GOMAXPROCS), history classes with >=2 overlapping operations",
+			"oracles: deduplicated race reports whose innermost repository frame lies in the shared-table code, process survival, no deadlock (60 s watchdog), linearizability; distinct = race pairs, (workload, FIB, goroutines, GOMAXPROCS), history classes with >=2 overlapping operations; quiescent: RIB writers, a strategy set/unset goroutine (mostly unsets that are logical no-ops) and lookups overlap on four prefixes; once all have finished the FIB must equal the flattening of the routes the RIB holds, lookups must agree, and the strategy table must hold the last command per prefix",
 		Assumptions: []string{"every interleaving is sampled, not enumerated: the race detector's happens-before analysis does not need the bad interleaving to occur", "reports whose both sides lie outside fw/table, fw/face/table.go, fw/dispatch, fw/mgmt/nlsr_readvertiser.go and the lookup-result uses in fw/fw are listed as out of scope (statistics counters, harness)",
 			"porcupine timeout (60 s) would be inconclusive"},
 		Batches:  func(t bool) int { return 8 },
